@@ -1059,9 +1059,10 @@ func (c *compiler) createFunctionBindings(funcs []*ast.FunctionDeclaration) {
 			for _, decl := range funcs {
 				if !decl.Function.Async && !decl.Function.Generator {
 					b, created := s.bindNameLexical(decl.Function.Name.Name, false, int(decl.Function.Name.Idx1())-1)
-					if created && s.variable && s.outer.eval {
-						// top-level function of the variable scope of strict eval code: var-scoped,
-						// a var declaration of the same name is not a conflict
+					if created && (s.isFunction() || s.variable && s.outer.eval) {
+						// a top-level function of a function body or of the variable scope of strict eval code is
+						// var-scoped: a var declaration of the same name (also one made by direct eval code at run
+						// time) is not a conflict
 						b.isVar = true
 					}
 				} else {
